@@ -175,7 +175,17 @@ impl Expansion<'_> {
             }
             .chain(&conv.tys)
             .map(|out_ty| {
-                let tys: Vec<_> = fields_tys.validate_type(out_ty)?.collect();
+                // `&` binds tighter than `+`, so a trait object with several bounds has to be
+                // parenthesized before a reference to it can be spelled.
+                let tys: Vec<_> = fields_tys
+                    .validate_type(out_ty)?
+                    .map(|ty| match ty {
+                        syn::Type::TraitObject(obj) if obj.bounds.len() > 1 => {
+                            quote! { (#ty) }
+                        }
+                        _ => quote! { #ty },
+                    })
+                    .collect();
 
                 Ok(quote! {
                     #[allow(clippy::unused_unit)]
